@@ -104,7 +104,19 @@ def np_array(c: Case):
     dt = np.dtype(c.dtype)
     if dt.kind == "b":
         return np.array([bool(v) for v in c.vals], dtype=bool)
+    if dt.kind in "mM":
+        # datetime64 / timedelta64: integers, NaN stands for NaT (the missing value of these dtypes)
+        nat = np.iinfo("int64").min
+        return np.array([nat if (isinstance(v, float) and v != v) else int(v) for v in c.vals], dtype="int64").view(dt)
     return np.array(c.vals, dtype=dt)
+
+
+def timelike_as_float(x):
+    """datetime64 / timedelta64 results -> float64 with NaN for NaT (so that they compare with the float oracle)"""
+    x = np.asarray(x)
+    if x.dtype.kind in "mM":
+        return np.where(np.isnat(x), np.nan, x.view("int64").astype("float64"))
+    return x
 
 
 def np_labels(c: Case):
@@ -194,7 +206,7 @@ def run_impl(c: Case):
             _recorded["lazy"] = lazy
     except Exception as e:  # noqa
         return dict(kind="err", err=err_kind(e), phase=phase, msg=str(e)[:200], plan=dict(_recorded))
-    return dict(kind="ok", groups=np.asarray(groups), vals=np.asarray(res), plan=dict(_recorded))
+    return dict(kind="ok", groups=np.asarray(groups), vals=timelike_as_float(res), plan=dict(_recorded))
 
 
 # ----------------------------------------------------------------------------------------------
@@ -254,6 +266,8 @@ def run_oracle(c: Case):
     arr = np_array(c)
     if arr.dtype.kind == "b" and c.func not in ("any", "all"):
         arr = arr.astype("int64")
+    if arr.dtype.kind in "mM":
+        arr = timelike_as_float(arr)          # NaT behaves like NaN: skipped by the nan* reductions, propagated by the others
     labs = c.labels
     present = sorted({l for l in labs if l is not None})
     groups = sorted(c.expected) if c.expected is not None else present
@@ -284,6 +298,8 @@ def run_oracle(c: Case):
 def model_line(c: Case, plan: dict) -> str | None:
     """protocol line for the Lean driver, using the plan the real code resolved (None if not expressible)"""
     dt = np.dtype(c.dtype)
+    if dt.kind in "mM":
+        return None          # datetime64 / timedelta64 are not in the value model: oracle only
     dk = DKIND[dt.name]
     if dt.kind == "b" and c.func not in ("any", "all"):
         dk = "i8"
